@@ -370,18 +370,31 @@ def generate(unit, template_path, repo=None, canary=False):
             i0 = item.body_open if item.body_open is not None else item.a
             found = None
             i = i0
+            expr_arm = False
             while i < item.b - len(pat_toks):
                 if [t.text for t in stt[i:i + len(pat_toks)]] == pat_toks and stt[i + len(pat_toks)].text == '=' and stt[i + len(pat_toks) + 1].text == '>' \
-                        and stt[i + len(pat_toks) + 2].text == '{':
+                        and stt[i - 1].text in ('{', ',', '}', '|'):
                     if found is not None:
                         raise AnchorError(f'{path}: arm `{kv["arm"][0]}` found more than once in {designator}')
                     bo = i + len(pat_toks) + 2
-                    found = (bo, match_close(stt, bo))
+                    if stt[bo].text == '{':
+                        found = (bo, match_close(stt, bo))
+                    else:
+                        # an expression arm `PAT => EXPR,`: the expression up to the `,` (or the closing brace of the match) at depth 0
+                        j = bo
+                        while j < item.b:
+                            if stt[j].kind == 'p' and stt[j].text in ('(', '[', '{'):
+                                j = match_close(stt, j)
+                            elif stt[j].kind == 'p' and stt[j].text in (',', '}'):
+                                break
+                            j += 1
+                        found = (bo, j - 1)
+                        expr_arm = True
                 i += 1
             if not found:
                 raise AnchorError(f'{path}: arm `{kv["arm"][0]}` not found in {designator}')
             bo, bc = found
-            lifted_sig = kv['sig'][0]
+            lifted_sig = kv['sig'][0] + (' {' if expr_arm else '')
             sl = Slice(src, stt[bo].start, stt[bc].end, (' > '.join(containers) + ' > ' if containers else '') + designator + f' > arm `{kv["arm"][0]}`')
             count('R9', 1)
         g.slices.append(sl)
@@ -404,7 +417,7 @@ def generate(unit, template_path, repo=None, canary=False):
         fi.props = props
         fi.is_fn = designator.startswith('fn ')
         local_heap = set(heapmethods)
-        body = sl.text if lifted_sig is None else lifted_sig + ' ' + sl.text
+        body = sl.text if lifted_sig is None else lifted_sig + ' ' + sl.text + (' }' if lifted_sig.endswith(' {') else '')
         if lifted_sig is not None:
             fi.is_fn = True
         user_rw = []
